@@ -10,7 +10,7 @@ RULE = ("Compositions are generated as letter->count tables satisfying premise 1
         "(>= 1/4 of residues from DEFHIKLMPQRSVWY, the rest from all 26 letters; lower-case rates drawn independently for the protein-only letters and the rest: 0, 2 %, 50 %, 98 %, 100 %), including exact-boundary "
         "tables (protein-only fraction exactly 1/4 with the remainder on one letter), then laid out as 2..40 sequences in "
         "a drawn order with drawn names; observed through kalign_arr_to_msa (array; the buffers carry text of the other kind behind the given lengths) and the FASTA/MSF/Clustal readers, "
-        "also as gapped presentations (up to 95% gap characters); FASTA input is in one file or split over 2..3 files read into one object; a quarter of the cases are observed after 1..3 earlier calls (array or file input of either kind, up to 18000 residues) in the same process. Oracle: reported biotype == expected kind, and equal "
+        "also as gapped presentations (up to 95% gap characters; in FASTA files the padding is one of - . ~ _ * ^ = + : [ ] `); FASTA input is in one file or split over 2..3 files read into one object; a quarter of the cases are observed after 1..3 earlier calls (array or file input of either kind, up to 18000 residues) in the same process. Oracle: reported biotype == expected kind, and equal "
         "after permuting and renaming the sequences; for inputs of <= 300 residues the run must accept the alignment type of the expected kind and reject the other. extra(): totals of 120000..1200000 residues (thorough ..4500000) enumerated for five alphabets; boundary compositions enumerated exhaustively for all "
         "(protein-only letter, filler letter) pairs. Non-trivial = >= 2 distinct letters; distinct by composition+layout hash.")
 ASSUMPTIONS = ["compositions satisfying neither premise are not judged",
@@ -170,7 +170,9 @@ def observe(seqs, names, via, gapfrac, gap_seed, history=None, nfiles=1, split_s
     else:
         rows = gapped_rows(seqs, gapfrac, gap_seed)
         if via == "fasta_gapped":
-            text = formats.write_fasta(names, rows, width=70)
+            # the readers take every punctuation character for a gap: pad with one of several (none of them is a residue)
+            gc = "--..~_*^=+:[]`"[gap_seed % 14]
+            text = formats.write_fasta(names, [r.replace("-", gc) for r in rows], width=70)
         elif via == "msf":
             text = formats.write_msf(names, rows, kind="P")
         else:
